@@ -109,8 +109,19 @@ def div_spec(expr, st, W, real=False):
         if isinstance(e, D.Un) and e.op == "abs":
             (v,), c = val(e.x)
             return [z3.If(v < 0, -v, v)], z3.And(c, D.fits(v, W, True))
-        (a,), ca = val(e.l)
-        (b,), cb = val(e.r)
+        la, ca = val(e.l)
+        lb, cb = val(e.r)
+        outs, conds = [], [ca, cb]
+        for a in la:
+            for b in lb:
+                vs, c = binop(e, a, b)
+                outs += vs
+                conds.append(c)
+        return outs, z3.And(*conds)
+
+    def binop(e, a, b):
+        """one pair of operand alternatives (a nested signed // or % has two)"""
+        ca = cb = z3.BoolVal(True)
         if e.op == ">>":
             cond = z3.And(ca, cb, D.fits(a, W, e.l.signed), b >= 0, b < W)
             return [a >> b], cond            # floor(a / 2**b) of the exact value
